@@ -2,7 +2,7 @@
 import json
 import os
 import vlib
-from props import vmlib
+from props import vmlib, frontlib
 
 PROPS = os.path.join(vlib.SPEC, "props")
 
@@ -63,8 +63,18 @@ def run(prop, tier, seed):
     nprog = 40 if tier == "quick" else 500
     pick = [c for c in cases if c.get("inmodel") or "group" in c]
     vmcov = vmlib.trace_leg(rep, prop, pick, wd, 2 * nprog, jobs=8, maxsteps=4000)
+    # (4) the optimizer and the assembler on the repository's own programs (compile only): every rewrite applied to the
+    # corpus extracted from the tests, examples and module tests - and, with them, to the prelude - is validated
+    corpus = [{"id": "corpus:" + p["name"], "files": {"main.abra": p["text"]}}
+              for p in frontlib.corpus_programs(2500 if tier == "quick" else None)]
+    ccov = vmlib.trace_leg(rep, prop, corpus, wd, 60 if tier == "quick" else len(corpus), jobs=8,
+                           flags=vmlib.T_OPT | vmlib.T_ASM, mode="compile", name="corpus")
     rep.coverage = {
         **vmcov,
+        "corpus_programs_compiled_with_hooks": ccov.get("vm_traced_runs", 0),
+        "corpus_peephole_rewrites_validated": ccov.get("peephole_rewrites_validated", 0),
+        "corpus_peephole_rewrites_outside_model": ccov.get("peephole_rewrites_outside_model", 0),
+        "corpus_assembled_instructions_validated": ccov.get("assembled_instructions_validated", 0),
         "programs": len(grid) + len(gen), "disagreements_checked": len(cases),
         "evaluations": len(cases), "distinct_nontrivial": len(grid) + len(gen),
         "rule": "(type, operator, left, right, operand form) grid of spec/props/C05.tla (%s) + AbraGen programs, each with the optimizer "
